@@ -52,7 +52,7 @@ FLOW_ACTIONS = [
     "ADecl", "AAssign", "ASaveCond", "AOkFlag", "AUse", "AReturn", "AEnterIf", "AEnterIfSaved", "AEnterIfCond", "AEnterIfWalrus",
     "AEnterIfAnd", "AEnterIfOr", "AEnterWhile", "AEnterWhileSaved", "AEnterWhileCond", "AElse", "AMerge", "AFinish",
 ]
-FLOW_SLICES = {"quick": ["q1", "q2", "q3"], "thorough": ["q1", "q2", "q3", "t1", "t2", "t3"]}
+FLOW_SLICES = {"quick": ["q1", "q2", "q3", "q4"], "thorough": ["q1", "q2", "q3", "q4", "t1", "t2", "t3"]}
 # slices whose functions are only model-checked (Impl |= oracle), not replayed: none in quick
 FLOW_REPLAY_LIMIT = {"quick": 10**9, "thorough": 400000}
 FLOW_BATCH = 2000
@@ -296,7 +296,8 @@ def flow_start(check: core.Check) -> dict:
     slices = FLOW_SLICES[check.tier]
     sens = [("ConstraintFlow.sens_guard.cfg", "InvFlow"), ("ConstraintFlow.sens_noguard.cfg", "InvFlow"),
             ("ConstraintFlow.sens_once.cfg", "InvFlow"), ("ConstraintFlow.sens_widen.cfg", "InvFlow"),
-            ("ConstraintFlow.strict.cfg", "InvFlowStrict"), ("ConstraintFlow.fixed.cfg", None)]
+            ("ConstraintFlow.strict.cfg", "InvFlowStrict"), ("ConstraintFlow.fixed.cfg", None),
+            ("ConstraintFlow.strict5.cfg", "InvFlowStrict"), ("ConstraintFlow.fixed5.cfg", None)]
 
     def tlc_slice(name: str):
         return name, core.run_tlc("ConstraintFlowEmit", f"ConstraintFlow.{name}.cfg", workers=max(2, core.NCPU // 2), timeout=3000)
@@ -337,7 +338,8 @@ def flow_finish(check: core.Check, started: dict) -> None:
     fl["sensitivity"] = (
         "InvFlow is violated when the Impl model's origin guard is reversed (the seeded-change family) or removed, when a loop body is "
         "visited once, and (FlowN2) when an assignment keeps the old definition nodes; InvFlowStrict (no deviation class) is violated on "
-        "the model of the code as found and holds on the model with proposed/C02-fix-4.diff; corrupted observations (stale narrowing, "
+        "the model of the code as found (strict.cfg), still violated with only proposed/C02-fix-4.diff on the loop slice (strict5.cfg) and "
+        "holds on the model with C02-fix-4 and C02-fix-5 (fixed.cfg, fixed5.cfg); corrupted observations (stale narrowing, "
         "widened type, withheld CPython run) are flagged viol:FlowN1 / viol:FlowN2 / oracle:runs"
     )
     fl["slices"] = {}
@@ -358,6 +360,7 @@ def flow_finish(check: core.Check, started: dict) -> None:
             "bounds": {k: consts[k] for k in ("FKinds", "FConds", "FLits", "FDecls", "FMaxStmts", "FMaxDepth")},
             "with_fake_definition_node": sum(1 for c in cases if c["fakes"] > 0),
             "with_constraint_dropped_by_origin_guard": sum(1 for c in cases if c["drops"] > 0),
+            "with_fake_node_overwritten_on_loop_revisit": sum(1 for c in cases if c["overwritten"] > 0),
         }
         for c in cases:
             all_cases.setdefault(_flow_digest(c), dict(c, slice=name))
@@ -368,8 +371,9 @@ def flow_finish(check: core.Check, started: dict) -> None:
     missing = {"asg", "save", "okflag", "use", "ret", "ifflag", "ifok", "ifc", "else", "end", "whflag", "whok", "whc", "ifwal", "ifand", "ifor"} - kinds
     if missing:
         raise core.MachineryError(f"flow token kinds never generated: {sorted(missing)}")
-    if not any(c["drops"] > 0 for c in cases) or not any(c["fakes"] > 1 for c in cases):
-        raise core.MachineryError("flow slice is vacuous: the origin guard never drops a constraint / no function stacks fake nodes")
+    if not any(c["drops"] > 0 for c in cases) or not any(c["fakes"] > 1 for c in cases) or not any(c["overwritten"] > 0 for c in cases):
+        raise core.MachineryError("flow slice is vacuous: the origin guard never drops a constraint / no function stacks fake nodes / "
+                                  "no fake node is overwritten on a loop revisit")
     limit = FLOW_REPLAY_LIMIT[check.tier]
     fl["functions_model_checked"] = len(cases)
     fl["replay_exhaustive"] = len(cases) <= limit
